@@ -327,11 +327,54 @@ func (s *sim) key() string {
 
 // release: clause (4). After the history, run a horizon of 3*expire epochs in which another topic
 // is sent on in every epoch; then nothing may be retained for topics that started or expired.
-func (s *sim) release() {
+func (s *sim) release(shed bool) {
 	epochs := int(3 * s.expire / sweep)
+	// shed variant: every sender that is certainly over its per-topic allowance on a topic that has
+	// not started keeps sending to that topic in every epoch; this traffic must be shed and must not
+	// keep anything alive
+	type st struct {
+		s uint16
+		t string
+	}
+	var over []st
+	if shed {
+		for sender, by := range s.possible {
+			for t, n := range by {
+				if n > perSender+1 && !s.ref.started[t] {
+					over = append(over, st{sender, t})
+				}
+			}
+		}
+		sort.Slice(over, func(i, j int) bool { return over[i].s < over[j].s || over[i].s == over[j].s && over[i].t < over[j].t })
+		if len(over) == 0 {
+			return
+		}
+	}
 	for i := 0; i < epochs; i++ {
 		s.doTick()
+		for _, o := range over {
+			s.box.HandleMessage(&tss.IncMessage{Data: []byte("shed"), Source: o.s, MsgType: uint8(tss.MsgTypeMPC), Topic: topicBytes(o.t)})
+		}
 		s.box.Send(uint8(tss.MsgTypeMPC), topicBytes("keepalive"), nil)
+	}
+	if shed {
+		// black-box oracle: what was buffered before the horizon has expired (nothing that was
+		// accepted refreshed it; whatever the box accepted after it had discarded the topic is new
+		// data). Start each such topic now: none of the old messages may come out.
+		before := len(s.h.log)
+		for _, o := range over {
+			s.box.Send(uint8(tss.MsgTypeMPC), topicBytes(o.t), nil)
+		}
+		old := 0
+		for _, id := range s.h.log[before:] {
+			if id != "shed" {
+				old++
+			}
+		}
+		if old > 0 {
+			s.bad("resources-released", "c15-buffer-never-discarded:under-shed-traffic", fmt.Sprintf("%d messages buffered before a horizon of %d epochs were still held after it, although the only traffic for their topic meanwhile (%v: sender, topic) was over the per-sender allowance and had to be shed without effect", old, epochs, over))
+		}
+		return
 	}
 	retained := func(field string) []string {
 		var out []string
@@ -397,11 +440,16 @@ type replay struct {
 	Expire int  `json:"expire_s"`
 	Hist   []op `json:"hist"`
 	Final  bool `json:"final"`
+	Shed   bool `json:"shed,omitempty"`
 }
 
 // runHist replays a history on a fresh box. It returns the canonical key.
 func runHist(c *harness.C, expire time.Duration, hist []op, final bool, reported map[string]bool) (key string) {
-	c.Exec(fmt.Sprintf("[c15] e%d %v final=%v", int(expire/time.Second), hist, final))
+	return runHistX(c, expire, hist, final, false, reported)
+}
+
+func runHistX(c *harness.C, expire time.Duration, hist []op, final, shed bool, reported map[string]bool) (key string) {
+	c.Exec(fmt.Sprintf("[c15] e%d %v final=%v shed=%v", int(expire/time.Second), hist, final, shed))
 	rec := c.Bubble(func() {
 		s := newSim(c, expire)
 		s.bad = func(clause, sig, detail string) {
@@ -413,14 +461,14 @@ func runHist(c *harness.C, expire time.Duration, hist []op, final bool, reported
 			for _, o := range s.hist {
 				hs = append(hs, o.String())
 			}
-			c.Violation(clause, sig, fmt.Sprintf("expire=%v history [%s]: %s", expire, strings.Join(hs, " "), detail), replay{int(expire / time.Second), hist, final})
+			c.Violation(clause, sig, fmt.Sprintf("expire=%v history [%s]: %s", expire, strings.Join(hs, " "), detail), replay{int(expire / time.Second), hist, final, shed})
 		}
 		for _, o := range hist {
 			s.apply(o)
 		}
 		key = s.key()
 		if final {
-			s.release()
+			s.release(shed)
 		}
 		s.box.Stop()
 	})
@@ -436,7 +484,7 @@ func bfsCase(expire time.Duration, first op, depth int, thorough bool) harness.C
 		if c.Replay != nil {
 			var rp replay
 			if json.Unmarshal(c.Replay, &rp) == nil {
-				runHist(c, time.Duration(rp.Expire)*time.Second, rp.Hist, rp.Final, reported)
+				runHistX(c, time.Duration(rp.Expire)*time.Second, rp.Hist, rp.Final, rp.Shed, reported)
 			}
 			return
 		}
@@ -470,6 +518,13 @@ func bfsCase(expire time.Duration, first op, depth int, thorough bool) harness.C
 				for _, h := range frontier {
 					runHist(c, expire, h, true, reported)
 					c.Add("release_checks", 1)
+					for _, o := range h {
+						if o.K == "burst" && o.N > perSender+1 {
+							runHistX(c, expire, h, true, true, reported)
+							c.Add("release_checks_under_shed_traffic", 1)
+							break
+						}
+					}
 					var hs []string
 					for _, o := range h {
 						hs = append(hs, o.String())
